@@ -131,6 +131,10 @@ def chunk_encode(tape, rng, coded, hints, base, eol=b'\r\n'):
         trailers = b'X-Trailer: tv' + eol
         if tape.chance(1, 2, 'trailer2'):
             trailers += b'Content-MD5: Q2hlY2s=' + eol
+        if tape.chance(1, 3, 'trailer3'):
+            # fields that would mean something in the header block: in the trailer they describe nothing that was decided before
+            # (RFC 7230 4.1.2: framing, routing, ... fields are not allowed there; a recipient may ignore them, never apply them late)
+            trailers += tape.choice((b'Content-Type: text/x-from-trailer', b'Content-Length: 3', b'Content-Encoding: gzip', b'Connection: close'), 'trailer3.f') + eol
     out += trailers
     hints.append(base + len(out))
     out += eol if not tape.chance(1, 12, 'chunk.final_lf') else b'\n'
@@ -246,8 +250,8 @@ def gen_response(tape, method='GET', allow_truncate=False, allow_surplus=True, a
         tev = tape.choice(('chunked', 'Chunked', 'chunked', 'CHUNKED', 'chunked ;x=1', 'chunked; q=1', 'chunked,', ', chunked', 'chunked , '), 'te.case')      # transfer-extension: token *( OWS ";" OWS parameter )
         fields.append(('Transfer-Encoding', tev))
         if tape.chance(1, 6, 'cl.and.te'):
-            # RFC 7230 3.3.3 rule 3: Transfer-Encoding overrides Content-Length
-            fields.append(('Content-Length', str(len(coded) + 7)))
+            # RFC 7230 3.3.3 rule 3: Transfer-Encoding overrides Content-Length (whatever it says: too much, too little, nothing)
+            fields.append(('Content-Length', tape.choice((str(len(coded) + 7), '0', '1', str(len(coded))), 'cl.and.te.v')))
     # connection handling
     conn_hdr = None
     if framing == 'close':
@@ -347,7 +351,9 @@ def gen_response(tape, method='GET', allow_truncate=False, allow_surplus=True, a
         for _ in range(tape.between(1, 2, 'interim.n')):
             blocks.append(tape.choice((b'HTTP/1.1 100 Continue' + eol + eol,
                                        b'HTTP/1.1 103 Early Hints' + eol + b'Link: </style.css>; rel=preload; as=style' + eol + eol,
-                                       b'HTTP/1.1 102 Processing' + eol + b'X-Progress: 1' + eol + eol), 'interim.kind'))
+                                       b'HTTP/1.1 102 Processing' + eol + b'X-Progress: 1' + eol + eol,
+                                       # (any 1xx is interim and bodiless, registered or not: RFC 7231 6.2)
+                                       b'HTTP/1.1 110 Still Thinking' + eol + eol, b'HTTP/1.1 199 Misc Interim' + eol + b'X-Note: n' + eol + eol), 'interim.kind'))
         pre = b''.join(blocks)
         shift = len(pre)
         r.desc['interim'] = len(blocks)
